@@ -292,13 +292,46 @@ def validR : List Form → Bool
   | .defmethod fl _ _ _ :: older =>
     validR older && decide (fl ≠ vanilla) && decide (fl ∈ definedR older)
 
+/-- the daemon of kind `k` flavor `g` supplies for message `m`; vanilla-flavor supplies its
+    built-in primaries (method id 0) -/
+def daemonVR (vm : List Msg) (h : List Form) (m : Msg) (k : Kind) (g : Name) : Option Mid :=
+  if g = vanilla then (if k = .primary ∧ m ∈ vm then some 0 else none) else daemonR h g k m
+
+/-- all daemons of kind `k` for message `m` an instance of `fl` has, in precedence order -/
+def daemonsR (vm : List Msg) (h : List Form) (fl : Name) (m : Msg) (k : Kind) : List Mid :=
+  (flattenR h fl).filterMap (daemonVR vm h m k)
+
+/-- the order the property demands: whoppers outermost first, every :before in precedence order,
+    the first primary, every :after in reverse precedence order, the whoppers unwinding -/
+def specTraceR (vm : List Msg) (h : List Form) (fl : Name) (m : Msg) : List Ev :=
+  (daemonsR vm h fl m .whopper).map Ev.whopIn
+    ++ (daemonsR vm h fl m .before).map Ev.before
+    ++ ((daemonsR vm h fl m .primary).head?.toList.map Ev.primary)
+    ++ ((daemonsR vm h fl m .after).reverse.map Ev.after)
+    ++ ((daemonsR vm h fl m .whopper).reverse.map Ev.whopOut)
+
+/-- the (flavor, kind, message) keys of the method forms -/
+def methodKeysR : List Form → List (Name × Kind × Msg)
+  | [] => []
+  | .defmethod fl k m _ :: older => (fl, k, m) :: methodKeysR older
+  | .defflavor .. :: older => methodKeysR older
+
 /-- the chronological-order versions used in the theorem statements -/
 def defined (h : List Form) : List Name := definedR h.reverse
 def valid (h : List Form) : Bool := validR h.reverse
+/-- precedence without vanilla-flavor -/
+def prec (h : List Form) (fl : Name) : List Name := precR h.reverse fl
+/-- precedence: the flavor, its components depth-first as written (first occurrence wins),
+    vanilla-flavor last -/
 def flatten (h : List Form) (fl : Name) : List Name := flattenR h.reverse fl
+def methodKeys (h : List Form) : List (Name × Kind × Msg) := methodKeysR h.reverse
 def daemon (h : List Form) (g : Name) (k : Kind) (m : Msg) : Option Mid := daemonR h.reverse g k m
 def specCombos (vm : List Msg) (h : List Form) (fl : Name) (m : Msg) : List Combo :=
   specCombosR vm h.reverse fl m
 def specSlot (h : List Form) (fl : Name) (s : Slot) : Option (Option Int) := specSlotR h.reverse fl s
+def ownSlot (h : List Form) (g : Name) (s : Slot) : Option (Option Int) := ownSlotR h.reverse g s
+def daemons (vm : List Msg) (h : List Form) (fl : Name) (m : Msg) (k : Kind) : List Mid :=
+  daemonsR vm h.reverse fl m k
+def specTrace (vm : List Msg) (h : List Form) (fl : Name) (m : Msg) : List Ev := specTraceR vm h.reverse fl m
 
 end SlipVerif.Flavors
